@@ -251,11 +251,16 @@ def call_scatter(impl, case, entry, pos, off=None, grid0='case', weights='case')
     return {'grid': [fr(v) for v in dens.ravel()], 'np': dens.copy()}
 
 
-def call_tscpar(impl, case, wrap, alloc=False):
+def call_tscpar(impl, case, wrap, alloc=False, stripes=False):
     posa, w = arrays(case)
     buf, dens = guarded(case)
     try:
-        if alloc:
+        if stripes:
+            # two stripes / two threads is accepted for every grid (one stripe per pass): the deposit must not
+            # depend on the partitioning (perm_invariant), so the same model request applies
+            out = impl.tsc.tsc_parallel(posa, dens, case['box'], weights=w, nthread=2, npartition=2, wrap=wrap,
+                                        offset=case['off'], coord=case.get('coord', 0))
+        elif alloc:
             out = impl.tsc.tsc_parallel(posa, tuple(case['shape']), case['box'], weights=w, nthread=1, wrap=wrap,
                                         offset=case['off'])
         else:
@@ -574,6 +579,11 @@ def check_case(ctx, impl, case, plan):
             i2 = plan.ask(line_tscpar(case, case['wrap']))
             rp = call_tscpar(impl, case, case['wrap'])
             results.append(('tsc_parallel', rp, i2, parse_tscpar, expected))
+            if 'err' not in rp:
+                rps = call_tscpar(impl, case, case['wrap'], stripes=True)
+                if 'pos' in rps:
+                    rps['pos'] = rp['pos']      # partitioning does not reorder the caller's array; wrap already compared
+                results.append(('tsc_parallel(2 stripes)', rps, i2, parse_tscpar, expected))
             if case['grid0'] is None and case['ddt'] == 'f4':
                 rp2 = call_tscpar(impl, case, case['wrap'], alloc=True)
                 results.append(('tsc_parallel(shape)', rp2, i2, parse_tscpar, expected))
